@@ -194,7 +194,8 @@ TRUSTED = [
     "CBMC 6.11 + cadical",
 ]
 NOT_COVERED = ["floating-point drift of the sums", "PDF(vector,vector) constructor and printTree",
-               "planner-side users of PDF (EST, KPIECE Discretization, AtlasStateSpace) beyond the structure's own contract"]
+               "PDF::add / remove / sample are bounded (<= 16 elements quick, <= 32 thorough); only PDF::update has an unbounded proof (an unbounded proof of sample() was attempted: design-probes/pdf_sample_unbounded)",
+               "PDF owners other than EST (addMotion + the two solve() call sites), AtlasStateSpace (clear, newChart) and KPIECE's Discretization: control EST, Syclop's availDist_, ProjEST, LBKPIECE"]
 
 NATIVE = [
     dict(name="c12_native_random_sequences", driver="native/c12_native.cpp",
